@@ -75,7 +75,23 @@ def decidable_exit(case, res, u):
         return True
     mags = set(abs(case["d"][k]) for k in tied)
     iso = len(set(u[k] for k in tied)) == 1 and all(math.log2(u[k]).is_integer() for k in tied)
-    return len(mags) == 1 and iso
+    if not (len(mags) == 1 and iso):
+        return False
+    # the code snaps the coordinate of the wall it crosses and advances the other coordinates by lmin * direction
+    # (rounded): after an earlier crossing the tied coordinates are no longer exact, so the tie is only reproduced when the
+    # packet leaves the block from the cell it starts in
+    from fractions import Fraction
+    p, d = case["p"], case["d"]
+    first = None
+    for k in range(3):
+        if d[k] > 0:
+            t = Fraction(24 * (4 * (p[k] // 4 + 1) - p[k]), d[k])
+        elif d[k] < 0:
+            t = Fraction(24 * (p[k] - 4 * (-(-p[k] // 4) - 1)), -d[k])
+        else:
+            continue
+        first = t if first is None else min(first, t)
+    return first is not None and Fraction(res["t4"], 4) == first
 
 
 def in_face_ray(case):
